@@ -171,6 +171,8 @@ def check(s, cfg, res, case):
     except BaseException as e:
         res.fail(exc_key(e), exc_detail(e), case)
         return
+    if check_lexical(s, nfc, out, cfg, res, case) is False:
+        return
     bal = braces_balance(out)
     if bal is not True:
         res.fail('c13:unbalanced-or-comment:%s' % prot, 'input %r -> %r' % (s, out), case)
@@ -189,6 +191,66 @@ def check(s, cfg, res, case):
                  'strings used contain %d' % (s, out, got_math, want_math), case)
 
 
+BARE_ACTIVE = '~&#^_%$'
+_SINGLE_OUT = {}
+
+
+def lexical_profile(out):
+    """(multiset of control-word names, counts of bare active characters and of the \\\\
+    control symbol) -- from the independent mini tokenizer"""
+    names, bare = {}, {}
+    for k, a, b in minitok.tokens(out):
+        if k == 'cw':
+            n = out[a + 1:b]
+            names[n] = names.get(n, 0) + 1
+        elif k == 'ch' and out[a] in BARE_ACTIVE:
+            bare[out[a]] = bare.get(out[a], 0) + 1
+        elif k == 'comment':
+            bare['%'] = bare.get('%', 0) + 1
+        elif k == 'cs' and out[a:b] == '\\\\':
+            bare['\\\\'] = bare.get('\\\\', 0) + 1
+        elif k in ('begin', 'end'):
+            names[k] = names.get(k, 0) + 1
+    return names, bare
+
+
+def single_profile(c, cfg):
+    k = (c, cfg)
+    if k not in _SINGLE_OUT:
+        try:
+            _SINGLE_OUT[k] = lexical_profile(encoder(cfg).unicode_to_latex(c))
+        except Exception:
+            _SINGLE_OUT[k] = None
+    return _SINGLE_OUT[k]
+
+
+def check_lexical(s, nfc, out, cfg, res, case):
+    """the input's own active characters are neutralised: the output holds no bare active
+    character, comment or line-break macro beyond what the encodings of its *non-active*
+    characters (taken one at a time) contribute.  (Which control words appear is not compared:
+    with protection 'none' a replacement may fuse with a following letter by design, and C08
+    covers content preservation for the protecting schemes.)"""
+    names, bare = lexical_profile(out)
+    want_names, allowed = {}, {}
+    for c in nfc:
+        prof = single_profile(c, cfg)
+        if prof is None:
+            return
+        for n, v in prof[0].items():
+            want_names[n] = want_names.get(n, 0) + v
+        if c not in ACTIVE_ASCII:
+            for x, v in prof[1].items():
+                allowed[x] = allowed.get(x, 0) + v
+    for x, v in sorted(bare.items()):
+        if v > allowed.get(x, 0):
+            res.fail('c13:active-character-not-neutralised:%s' % ('line-break-macro' if x == '\\\\'
+                                                                   else 'U+%04X' % ord(x)),
+                     'input %r -> %r holds %d bare %r, the encodings of its non-active characters '
+                     'account for %d' % (s, out, v, x, allowed.get(x, 0)), case)
+            return False
+    return True
+
+
 def configs(tier):
     return [(s, p, pol) for s in SETS for p in PROTS for pol in POLICIES]
 
@@ -200,7 +262,8 @@ def plan(tier, seed):
     shards += [('mix', nmix // NSHARDS, seed * 1000 + k) for k in range(NSHARDS)]
     return {'shards': shards, 'bounds': {'base_len': L, 'base_alphabet': len(BASE),
                                          'configurations': len(configs(tier)), 'mixtures': nmix},
-            'required_classes': ['base', 'single', 'mixture', 'fail-raised', 'active-pair']}
+            'required_classes': ['base', 'single', 'mixture', 'fail-raised', 'active-pair',
+                                 'boundary-code-point', 'nfc-changes-input']}
 
 
 def run_shard(shard, res):
@@ -222,10 +285,21 @@ def run_shard(shard, res):
     elif kind_ == 'singles':
         _, k = shard
         t = tables()
-        chars = sorted(set(t['defaults']) | set(t['unicode-xml']))
+        # every built-in character, plus the boundaries of the ASCII pass-through range, a
+        # decomposed pair and a Hangul jamo sequence (NFC changes the string), a private-use, an
+        # unassigned and a non-character code point
+        BOUNDARY = [0, 9, 10, 13, 0x1f, 0x20, 0x7e, 0x7f, 0x80, 0x9f, 0xe000, 0x378, 0xffff, 0x10ffff]
+        chars = sorted(set(t['defaults']) | set(t['unicode-xml']) | set(BOUNDARY))
+        if k == 0:
+            for s in ('e\u0301', 'A\u030a', '\u1100\u1161', '\u212b', '\u2126x'):
+                for cfg in cfgs:
+                    check(s, cfg, res, {'s': s, 'cfg': list(cfg)})
+            res.label('nfc-changes-input')
         for i, o in enumerate(chars):
             if i % NSHARDS != k:
                 continue
+            if o in BOUNDARY:
+                res.label('boundary-code-point')
             for tpl in ('%s', 'a%sb', '\\%s{', '%s%%', '%s %s', '$%s}'):
                 s = tpl.replace('%%', '\0').replace('%s', chr(o)).replace('\0', '%')
                 for cfg in cfgs:
